@@ -66,8 +66,8 @@ def _r6(ctx):
     # over the option occurrences (a local assigned from self.option("ode-modifier"))
     D = "(?:" + "|".join(map(re.escape, _alias_closure(ih, next((k.value.id for c in ast.walk(ih) if isinstance(c, ast.Call) for k in c.keywords if k.arg == "ode_modifier" and isinstance(k.value, ast.Name)), "ode_modifier")))) + ")"
     Dn = D[3:-1].split("|")[-1]
-    optvars = {t.id for n in ast.walk(ih) if isinstance(n, ast.Assign) and "option('ode-modifier')" in ast.unparse(n.value) for t in n.targets if isinstance(t, ast.Name)}
-    loops = [n for n in ast.walk(ih) if isinstance(n, ast.For) and isinstance(n.iter, ast.Name) and n.iter.id in optvars]
+    from .c20 import _option_origins, _option_loops
+    loops = _option_loops(ih, _option_origins(ih), "ode-modifier")
     if len(loops) != 1:
         ctx.missing("R6", "--ode-modifier loop", (INIT, ih.lineno), f"expected one loop over the --ode-modifier occurrences, found {len(loops)}")
         return
@@ -446,7 +446,8 @@ def _r2(ctx):
         ctx.check(ok, "R2", "RenderCommand.handle:Network(rate_modifier=)", (RENDER, later[0].lineno if later else conv.lineno),
                   "the converted dictionary is what Network(...) receives")
     # writer: string keys
-    cfn = pkg.classes["BaseConfiguration"].methods.get("content")
+    from .c20 import _content_writer
+    cfn = _content_writer(pkg)
     ctx.saw(CONF, "BaseConfiguration.content")
     w = None
     for node in ast.walk(cfn):
@@ -457,9 +458,10 @@ def _r2(ctx):
         ctx.missing("R2", "BaseConfiguration.content:rate_modifier", (CONF, cfn.lineno), "no assignment of chemistry['rate_modifier']")
     else:
         v = w.value
-        okw = isinstance(v, ast.DictComp) and isinstance(v.key, ast.Call) and ast.unparse(v.key.func) == "str" and "_ratemodifier" in ast.unparse(v.generators[0].iter)
+        okw = isinstance(v, ast.DictComp) and isinstance(v.key, ast.Call) and ast.unparse(v.key.func) == "str" and "_ratemodifier" in ast.unparse(v.generators[0].iter) \
+            and len(v.generators) == 1 and not v.generators[0].ifs          # every entry, none filtered away
         ctx.check(okw, "R2", "BaseConfiguration.content:str(key)", (CONF, w.lineno),
-                  "rate-modifier keys are written as strings (TOML keys; integer keys make tomlkit raise), the inverse of the reader's int(key)",
+                  "every rate-modifier entry is written, keys as strings (TOML keys; integer keys make tomlkit raise), the inverse of the reader's int(key)",
                   expected="{str(key): value for key, value in self._ratemodifier.items()}", found=ast.unparse(v)[:90])
 
 
@@ -617,14 +619,13 @@ def _r5(ctx, m):
             k2 |= _str_keys(n)
     sets[(EXAMPLE, "ExampleCommand.handle (reader)")] = k2
     # writer: init.py
-    from .c20 import _init_handle, _option_origins
+    from .c20 import _init_handle, _option_origins, _option_loops
     h = _init_handle(pkg)
     ctx.saw(INIT, "InitCommand.handle")
     k3 = set()
-    org = _option_origins(h)
-    for n in ast.walk(h):
-        # by role: the loop(s) over the occurrences of --ode-modifier
-        if isinstance(n, ast.For) and isinstance(n.iter, ast.Name) and org.get(n.iter.id) == "ode-modifier":
+    # by role: the loop(s) over the occurrences of --ode-modifier
+    for n in _option_loops(h, _option_origins(h), "ode-modifier"):
+        if True:
             for d in ast.walk(n):
                 if isinstance(d, ast.Dict):
                     k3 |= {k.value for k in d.keys if isinstance(k, ast.Constant)}
@@ -674,6 +675,21 @@ MUTANTS = [
     {"name": "modifier-row-without-kwargs", "file": T, "old": "spec = Species(sname, **species_kwargs)", "new": "spec = Species(sname)", "rules": ["R4"]},
     {"name": "config-int-keys", "file": CONF, "old": "        chemistry[\"rate_modifier\"] = {\n            str(key): value for key, value in self._ratemodifier.items()\n        }\n", "new": "        chemistry[\"rate_modifier\"] = self._ratemodifier\n", "rules": ["R2"]},
     {"name": "render-no-int", "file": RENDER, "old": "rate_modifier = {int(key): value for key, value in rate_modifier.items()}", "new": "rate_modifier = dict(rate_modifier)", "rules": ["R2"]},
+    # new spellings accepted since hardening round 4: the same defects inside them
+    {"name": "statement-helper-drops-falsy-value", "edits": [
+        {"file": T, "old": "    def _assign_rates(\n", "new": "    @staticmethod\n    def _rate_stmt(sym, i, expr, keep=\"\"):\n        return f\"{sym}[{i}] = {expr};\" if expr else keep\n\n    def _assign_rates(\n"},
+        {"file": T, "old": 'rateeqns[idx] = f"{rate_sym}[{idx}] = {value};"', "new": "rateeqns[idx] = self._rate_stmt(rate_sym, idx, value, rateeqns[idx])"}], "rules": ["R1"]},
+    {"name": "statement-helper-wrong-slot", "edits": [
+        {"file": T, "old": "    def _assign_rates(\n", "new": "    @staticmethod\n    def _rate_stmt(sym, i, expr):\n        return f\"{sym}[{i}] = {expr};\"\n\n    def _assign_rates(\n"},
+        {"file": T, "old": 'rateeqns[idx] = f"{rate_sym}[{idx}] = {value};"', "new": "rateeqns[idx] = self._rate_stmt(rate_sym, key, value)"}], "rules": ["R1"]},
+    {"name": "render-keywords-swapped", "file": T, "old": "ode = self._prepare_ode_content(info, speckws, rate_modifier, ode_modifier)", "new": "ode = self._prepare_ode_content(info, species_kwargs=speckws, rate_modifier=ode_modifier, ode_modifier=rate_modifier)", "rules": ["R3"]},
+    {"name": "network-store-helper-filters", "edits": [
+        {"file": NETWORK, "old": "def _grain_factory(", "new": "def _kept(table):\n    return {k: v for k, v in table.items() if v} if table else {}\n\n\ndef _grain_factory("},
+        {"file": NETWORK, "old": "        self._rate_modifier = rate_modifier.copy() if rate_modifier else {}", "new": "        self._rate_modifier = _kept(rate_modifier)"}], "rules": ["R7"]},
+    {"name": "init-ode-parser-helper-overwrites", "edits": [
+        {"file": INIT, "old": '        ode_modifier_str = self.option("ode-modifier")\n        ode_modifier = {}\n        for l in ode_modifier_str:\n', "new": '        ode_modifier = self._ode_terms(self.option("ode-modifier"))\n        for l in []:\n'},
+        {"file": INIT, "old": "    def option(self, key=None):\n", "new": "    @staticmethod\n    def _ode_terms(values):\n        table = {}\n        for text in values:\n            for om in text.split(\";\"):\n                if not om:\n                    break\n                key, value = om.split(\":\")\n                fact, rdep = value.split(\",\")\n                table[key] = {\"factors\": [fact], \"reactants\": [rdep.split()]}\n        return table\n\n    def option(self, key=None):\n"}], "rules": ["R6"]},
+    {"name": "writer-filters-in-comprehension", "file": CONF, "old": "            str(key): value for key, value in self._ratemodifier.items()\n", "new": "            str(key): value for key, value in self._ratemodifier.items() if value\n", "rules": ["R2"]},
     {"name": "reindex-from-1", "file": NETWORK, "old": "for idx, reac in enumerate(self.reaction_list):\n            reac.idxfromfile = idx", "new": "for idx, reac in enumerate(self.reaction_list):\n            reac.idxfromfile = str(idx)", "rules": ["R2", "R3"]},
 ]
 BENIGN = [
@@ -681,5 +697,21 @@ BENIGN = [
      "new": '                entry = ode_modifier.setdefault(key, {"factors": [], "reactants": []})\n                entry["factors"].append(fact)\n                entry["reactants"].append(rdep)\n'},
     {"name": "network-stores-dict-copy", "file": NETWORK, "old": "        self._rate_modifier = rate_modifier.copy() if rate_modifier else {}", "new": "        self._rate_modifier = dict(rate_modifier) if rate_modifier else {}"},
     {"name": "override-guard-flipped", "file": T, "old": "if key == reac.idxfromfile:", "new": "if reac.idxfromfile == key:"},
+    # hardening round 4: extracted helpers, keyword arguments, other counter / loop spellings
+    {"name": "statement-through-helper", "edits": [
+        {"file": T, "old": "    def _assign_rates(\n", "new": "    @staticmethod\n    def _rate_stmt(sym, i, expr, cond=\"\"):\n        stmt = f\"{sym}[{i}] = {expr};\"\n        if not cond:\n            return stmt\n        return \"\\n\".join([f\"if ({cond}) {{\", stmt, \"}\"])\n\n    def _assign_rates(\n"},
+        {"file": T, "old": 'rateeqns[idx] = f"{rate_sym}[{idx}] = {value};"', "new": "rateeqns[idx] = self._rate_stmt(rate_sym, idx, value)"}]},
+    {"name": "render-passes-keywords", "file": T, "old": "        speckws = network._species_kwargs\n        rate_modifier = network.rate_modifier\n        ode_modifier = network.ode_modifier\n        ode = self._prepare_ode_content(info, speckws, rate_modifier, ode_modifier)",
+     "new": "        ode = self._prepare_ode_content(info, ode_modifier=network.ode_modifier, rate_modifier=network.rate_modifier, species_kwargs=network._species_kwargs)"},
+    {"name": "network-store-through-helper", "edits": [
+        {"file": NETWORK, "old": "def _grain_factory(", "new": "def _own(table, empty):\n    return table.copy() if table else empty()\n\n\ndef _grain_factory("},
+        {"file": NETWORK, "old": "        self._rate_modifier = rate_modifier.copy() if rate_modifier else {}", "new": "        self._rate_modifier = _own(rate_modifier, dict)"}]},
+    {"name": "reindex-zip-count", "edits": [
+        {"file": NETWORK, "old": "import shutil\n", "new": "import shutil\nimport itertools\n"},
+        {"file": NETWORK, "old": "for idx, reac in enumerate(self.reaction_list):\n            reac.idxfromfile = idx", "new": "for pos, reac in zip(itertools.count(), self.reaction_list):\n            reac.idxfromfile = pos"}]},
+    {"name": "init-ode-parser-helper", "edits": [
+        {"file": INIT, "old": '        ode_modifier_str = self.option("ode-modifier")\n        ode_modifier = {}\n        for l in ode_modifier_str:\n', "new": '        ode_modifier = self._ode_terms(self.option("ode-modifier"))\n        for l in []:\n'},
+        {"file": INIT, "old": "    def option(self, key=None):\n", "new": "    @staticmethod\n    def _ode_terms(values):\n        table = {}\n        for text in values:\n            for om in text.split(\";\"):\n                if not om:\n                    break\n                key, value = om.split(\":\")\n                fact, rdep = value.split(\",\")\n                rec = table.setdefault(key, {\"factors\": [], \"reactants\": []})\n                rec[\"factors\"].append(fact)\n                rec[\"reactants\"].append(rdep.replace(\"[\", \"\").replace(\"]\", \"\").strip().split())\n        return table\n\n    def option(self, key=None):\n"}]},
+    {"name": "init-loops-over-option-directly", "file": INIT, "old": '        ode_modifier_str = self.option("ode-modifier")\n        ode_modifier = {}\n        for l in ode_modifier_str:\n', "new": '        ode_modifier = {}\n        for l in self.option("ode-modifier"):\n'},
     {"name": "rename-loop-var", "file": T, "old": "for sname, expr in ode_modifier.items():\n            spec = Species(sname, **species_kwargs)", "new": "for target, expr in ode_modifier.items():\n            spec = Species(target, **species_kwargs)"},
 ]
